@@ -292,9 +292,7 @@ pub fn enum_value_name(t: &mut Tape, scope: &mut Scope, cfg: &NameCfg) -> String
     for _ in 0..8 {
         if t.chance(cfg.keyword_percent) {
             let k = *t.pick(RUST_KEYWORDS);
-            // `self` / `Self` as enum values are a listed finding of C11 (variant `Self` under
-            // normalization = rust); excluded here by construction, enumerated there
-            if k != "true" && k != "false" && k != "null" && k != "self" && k != "Self" && scope.try_insert(k) {
+            if k != "true" && k != "false" && k != "null" && scope.try_insert(k) {
                 return k.to_string();
             }
             continue;
